@@ -310,6 +310,16 @@ let run_leaf toks =
             String.concat " " (List.map pr (decode_array (nat_of_int (List.length bytes / 8)) nextPrime_bruijn bytes low0))))
   | ["gss"; user; l1; l2; l3; s1; s2; s3] -> pr (get_sieve_size (z user) { c_l1 = z l1; c_l2 = z l2; c_l3 = z l3; c_l1s = z s1; c_l2s = z s2; c_l3s = z s3 })
   | ["nbuf"; pcu; a; b] -> let (c, s) = next_buffer (z pcu) (z a) (z b) in pr c ^ " " ^ pr s
+  | "vec" :: ops ->
+      (* Vector.hpp growth: ops p | r<n> | z<n> | a<k> | c ; prints "size capacity" after every operation *)
+      let op t = match t.[0] with
+        | 'p' -> VPush | 'c' -> VClear
+        | 'r' -> VReserve (z (String.sub t 1 (String.length t - 1)))
+        | 'z' -> VResize (z (String.sub t 1 (String.length t - 1)))
+        | _ -> VAppend (z (String.sub t 1 (String.length t - 1))) in
+      let ops = List.map op ops in
+      let rec prefixes acc = function [] -> [] | o :: r -> let a = acc @ [o] in a :: prefixes a r in
+      String.concat " " (List.map (fun l -> let (s, c) = vec_run l in pr s ^ "," ^ pr c) (prefixes [] ops))
   | ["is_prime"; x] -> if is_prime (z x) then "1" else "0"
   | ["mr"; x] -> if mr (z x) then "1" else "0"
   | _ -> "?"
